@@ -1,4 +1,4 @@
-import Sucds.Proofs.GenAll
+import Sucds.Proofs.GenEFBuilder
 /-! # C16 over the definitions *generated from the Rust sources* (`src/mii_sequences/elias_fano.rs`) — builder part
 
 `Props/C16.lean` with the model builder replaced by the generated `GenFn.EliasFanoBuilder.{new, push, extend,
